@@ -196,7 +196,7 @@ def spec_plaquettes(op, P_in, P_out, emap, vmap, lat_in, lat_out, truthful):
             if q is None:
                 bad.append((f"{k}:plaquette-lost", f"{k}: input plaquette on edges {p['e'][:8]} (none removed) is not a plaquette of the output"))
                 continue
-            if q["n"] != p["n"] or not np.all(np.abs(q["c"] - p["c"]) <= 1e-9 * (1 + np.abs(p["c"]))):
+            if q["n"] != p["n"] or not np.all((np.abs(q["c"] - p["c"]) <= 1e-9 * (1 + np.abs(p["c"]))) | (np.isnan(q["c"]) & np.isnan(p["c"]))):
                 bad.append((f"{k}:plaquette-geometry", f"{k}: surviving plaquette on edges {p['e'][:8]} changed geometry (centre {p['c']} -> {q['c']})"))
             if vmap is not None and q["e"] and p["e"]:
                 # same vertices through the renaming, as cyclic sequences aligned on the first mapped dart
@@ -217,7 +217,7 @@ def spec_plaquettes(op, P_in, P_out, emap, vmap, lat_in, lat_out, truthful):
             bad.append((f"{k}:plaquettes", f"{k}: {len(P_in)} plaquettes before, {len(P_out)} after"))
         else:
             for i, (p, q) in enumerate(zip(P_in, P_out)):
-                if p["e"] != q["e"] or p["d"] != q["d"] or [vmap[v] for v in p["v"]] != q["v"] or not np.allclose(p["c"], q["c"], rtol=0, atol=1e-12):
+                if p["e"] != q["e"] or p["d"] != q["d"] or [vmap[v] for v in p["v"]] != q["v"] or not np.allclose(p["c"], q["c"], rtol=0, atol=1e-12, equal_nan=True):
                     bad.append((f"{k}:plaquettes", f"{k}: plaquette {i} is not the renamed original plaquette"))
                     break
     return bad, new
@@ -464,6 +464,7 @@ def evaluate(ctx, cases, label, plaquette_budget=None):
         hs[b] = hs.get(b, 0) + 1
         P_in = "unset"
         faces = "unset"
+        generic = "unset"
         truthful = flags_truthful(pos, edges, cr)
         has_cross = bool(np.any(cr != 0))
         used = {}
@@ -525,6 +526,14 @@ def evaluate(ctx, cases, label, plaquette_budget=None):
                 used[k] = used.get(k, 0) + 1
                 want_pl = used[k] <= plaquette_budget
             if want_pl:
+                if generic == "unset":
+                    generic = angular_margin(lat) >= 1e-9
+                if not generic:
+                    # two edges leave a vertex in (almost) the same direction: the rotation system depends on how
+                    # argsort breaks the tie (C01's genericity clause); plaquette clauses not evaluated
+                    res.skip("plaquette clauses not evaluated: nongeneric-angular-margin<1e-9")
+                    want_pl = False
+            if want_pl:
                 if P_in == "unset":
                     P_in = plaqs(lat)
                 P_out = plaqs(out_lat)
@@ -557,13 +566,13 @@ SMALL_FAMILIES = ("edge_subset", "relabel", "face_last")
 def case_list(tier, seed, n_vor=None):
     base = gen.lattice_cases(tier, seed)
     if tier != "quick":
-        # budget (<= 30 min): every k-th of the tiny-lattice streams (about 5000 of them), 150 of the 400 Voronoi
+        # budget (<= 30 min): every k-th of the tiny-lattice streams (about 3500 of them), 120 of the 400 Voronoi
         # lattices with everything derived from them
         small = [b for b in base if b["family"] in SMALL_FAMILIES]
         big = [b for b in base if b["family"] not in SMALL_FAMILIES]
-        stride = max(1, len(small) // 5000)
+        stride = max(1, len(small) // 3500)
         vor = [b for b in big if b["family"] == "voronoi"]
-        keep_seeds = {b["seed"] for b in vor[:150]}
+        keep_seeds = {b["seed"] for b in vor[:120]}
 
         def root(b):
             while "base" in b:
